@@ -327,6 +327,7 @@ class Fn:
         self.loop_tmps = {}
         self.dropped = 0
         self.dropped_vars = set()
+        self.region_param_ids = set()
 
 
 class Lowerer:
@@ -388,6 +389,10 @@ class Lowerer:
                 inner = self.parse_type(base[:j] + '[' + n + ']')
                 return Ty('arr', to=inner, n=base[j + 1:-1].strip())
             return Ty('arr', to=self.parse_type(base), n=n)
+        msp = re.match(r'^(const\s+)?std::(shared_ptr|__shared_ptr|__shared_ptr_access)<(.*)>$', s)
+        if msp:
+            self.note('std::shared_ptr<T> lowered to T* (ownership and reference counting are not modelled)')
+            return Ty('ptr', to=self.parse_type(split_top(msp.group(3))[0]))
         if re.match(r'^(const\s+)?std::function<', s):
             return Ty('rec', name='std_function_opaque', key='std::function<opaque>')
         if '(' in s and not s.startswith('(anonymous') and '(anonymous namespace)' not in s and '(lambda' not in s:
@@ -759,6 +764,29 @@ class Lowerer:
             f.record = rt
             if kind != 'CXXConstructorDecl' or getattr(f, 'ctor_as_method', False):
                 params.append('%s* self' % self.cty(rt))
+        for vname in getattr(f, 'region_params', []):
+            hits = []
+            def findv(x):
+                if x.get('kind') == 'VarDecl' and x.get('name') == vname:
+                    hits.append(x)
+                for y in x.get('inner', []):
+                    if isinstance(y, dict):
+                        findv(y)
+            findv(n)
+            if len(hits) != 1:
+                raise InfraError('contract no longer attached: region parameter %s found %d times in %s' % (vname, len(hits), f.cname))
+            vt = self.ty(hits[0]['type'])
+            if not self.resolvable(vt):
+                ini = [x for x in hits[0].get('inner', []) if isinstance(x, dict) and 'type' in x]
+                if ini:
+                    vt = self.ty(ini[0]['type']).noref()
+            self.note('region of %s: local %s becomes a parameter (its value on entry is arbitrary)' % (f.cname, vname))
+            if vt.kind == 'ref':
+                f.refvars.add(hits[0]['id'])
+                params.append(self.cdecl(Ty('ptr', to=vt.to), vname))
+            else:
+                params.append(self.cdecl(vt, vname))
+            f.region_param_ids.add(hits[0]['id'])
         for p in self.params_of(n):
             pt = self.ty(p['type'])
             pname = p.get('name') or ('_unused%d' % len(params))
@@ -1474,7 +1502,7 @@ class Lowerer:
             if rk == 'VarDecl' and d is None:
                 return self.external_var(r)
             nm = f.names.get(rid) or r['name']
-            if nm in f.dropped_vars:
+            if nm in f.dropped_vars and rid not in f.region_param_ids:
                 raise Unsupported('uses variable %s whose declaration was dropped' % nm)
             if rid in f.refvars:
                 return '(*%s)' % nm
@@ -1629,6 +1657,8 @@ class Lowerer:
         tt = self.ty(e['type'])
         if (st.deref().key or '').startswith('std::atomic<'):
             return self.expr(sub)   # base subobject of the std::atomic model is the model itself
+        if 'shared_ptr' in ((sub['type'].get('desugaredQualType') or '') + sub['type'].get('qualType', '')):
+            return self.expr(sub)   # shared_ptr base classes: the raw-pointer model is its own base
         if st.kind == 'ptr':
             base_t = tt.deref()
             self.need_record(st.to)
@@ -2213,6 +2243,14 @@ class Lowerer:
 
     def builtin_method(self, e, me, base, obj, args):
         name = me.get('name')
+        braw = (base['type'].get('desugaredQualType') or base['type'].get('qualType') or '')
+        if 'shared_ptr' in braw and name in ('operator->', 'get', 'operator*', 'operator bool'):
+            p = self.expr(base)
+            if name == 'operator*':
+                return '(*%s)' % p
+            if name == 'operator bool':
+                return '((%s) != 0)' % p
+            return p
         bt = self.ty(base['type']).noref()
         if me.get('isArrow'):
             bt = self.ty(base['type']).deref()
